@@ -1100,3 +1100,85 @@ theorem db_commit (p : DParams α) (nrm : Nat → α) (xs : List (Option α)) (s
 end Commit2
 
 end Ska.Budget
+
+namespace Ska.Budget
+
+/-! ## density / cognitive strategies: what the budget manager is told -/
+
+section Density
+variable {σ ι : Type}
+
+theorem densityDecisions_length (M : Mgr σ (Option ι)) (s : σ) (c : List (Bool × Option ι)) :
+    (densityDecisions M s c).length = c.length := by
+  induction c with
+  | nil => rfl
+  | cons x xs ih => obtain ⟨p, u⟩ := x; simp [densityDecisions, ih]
+
+/-- only instances that pass the density filter are ever queried -/
+theorem densityDecisions_pass (M : Mgr σ (Option ι)) (s : σ) (c : List (Bool × Option ι)) (i : Nat)
+    (h : (densityDecisions M s c)[i]? = some true) : ∃ hi : i < c.length, c[i].1 = true := by
+  induction c generalizing i with
+  | nil => simp [densityDecisions] at h
+  | cons x xs ih =>
+    obtain ⟨p, u⟩ := x
+    cases i with
+    | zero =>
+      simp only [densityDecisions, List.getElem?_cons_zero, Option.some.injEq] at h
+      refine ⟨by simp, ?_⟩
+      cases p <;> simp_all
+    | succ i =>
+      simp only [densityDecisions, List.getElem?_cons_succ] at h
+      obtain ⟨hi, hp⟩ := ih i h
+      exact ⟨by simp; omega, by simpa using hp⟩
+
+/-- `new_positions[i]` is the position of instance `i` in `new_candidates`, and the entry found there
+is the one appended for instance `i`. -/
+theorem newPositions_spec (keepAll : Bool) (c : List (Bool × Option ι)) (k i : Nat) (hi : i < c.length)
+    (hp : passedOn keepAll c[i] = true) :
+    ∃ j, (newPositions keepAll c k).getD i none = some (k + j) ∧
+      (newCandidates keepAll c)[j]? = some (entryOf c[i]) := by
+  induction c generalizing k i with
+  | nil => simp at hi
+  | cons x xs ih =>
+    cases i with
+    | zero =>
+      simp only [List.getElem_cons_zero] at hp
+      exact ⟨0, by simp [newPositions, hp], by simp [newCandidates, hp]⟩
+    | succ i =>
+      simp only [List.getElem_cons_succ] at hp ⊢
+      have hi' : i < xs.length := by simpa using hi
+      cases hx : passedOn keepAll x with
+      | true =>
+        obtain ⟨j, h1, h2⟩ := ih (k + 1) i hi' hp
+        refine ⟨j + 1, ?_, ?_⟩
+        · simp only [newPositions, hx, if_true, List.getD_cons_succ, h1]; congr 1; omega
+        · simpa [newCandidates, List.filter_cons, hx] using h2
+      | false =>
+        obtain ⟨j, h1, h2⟩ := ih k i hi' hp
+        refine ⟨j, ?_, ?_⟩
+        · simp only [newPositions, hx, Bool.false_eq_true, if_false, List.getD_cons_succ, h1]
+        · simpa [newCandidates, List.filter_cons, hx] using h2
+
+theorem remap_ok (pos : List (Option Nat)) (idx : List Nat) (P : Nat → Nat → Prop)
+    (h : ∀ i ∈ idx, ∃ j, pos.getD i none = some j ∧ P i j) :
+    ∃ js, remap pos idx = .ok js ∧ List.Forall₂ P idx js := by
+  induction idx with
+  | nil => exact ⟨[], rfl, List.Forall₂.nil⟩
+  | cons i is ih =>
+    obtain ⟨j, hj, hP⟩ := h i (List.mem_cons_self)
+    obtain ⟨js, hjs, hf⟩ := ih (fun i' hi' => h i' (List.mem_cons_of_mem _ hi'))
+    exact ⟨j :: js, by simp only [remap, hj, hjs], List.Forall₂.cons hP hf⟩
+
+theorem forall₂_right {α β : Type} {P : α → β → Prop} {Q : β → Prop} {as : List α} {bs : List β}
+    (h : List.Forall₂ P as bs) (hq : ∀ a b, P a b → Q b) : ∀ b ∈ bs, Q b := by
+  induction h with
+  | nil => simp
+  | cons hab _ ih =>
+    intro b hb
+    rcases List.mem_cons.mp hb with rfl | hb
+    · exact hq _ _ hab
+    · exact ih b hb
+
+end Density
+
+end Ska.Budget
